@@ -285,7 +285,8 @@ func (f *farm) process(files []FileDef, mode string, plan map[string]*enumPlan) 
 		}
 		lap("go build of the observer")
 		outPath := filepath.Join(f.work, "dump.jsonl")
-		out, err = f.run(f.work, 15*time.Minute, bin, planPath, outPath)
+		// watchdog: an observer that hangs (unbounded loop in generated code) is killed and treated like one that died
+		out, err = f.run(f.work, 4*time.Minute, bin, planPath, outPath)
 		var data []byte
 		if err != nil {
 			// the observer died (a fatal error of generated code — e.g. unbounded recursion — cannot be recovered
@@ -302,11 +303,11 @@ func (f *farm) process(files []FileDef, mode string, plan map[string]*enumPlan) 
 			parallel(len(pkgs), 8, func(k int) {
 				i := pkgs[k]
 				op := filepath.Join(f.work, "dump-"+files[i].Pkg+".jsonl")
-				o, e := f.run(f.work, 5*time.Minute, bin, planPath, op, files[i].Pkg)
+				o, e := f.run(f.work, 90*time.Second, bin, planPath, op, files[i].Pkg)
 				mu.Lock()
 				defer mu.Unlock()
 				if e != nil {
-					res[i].BuildLog = "observer process died: " + head(o, 400)
+					res[i].BuildLog = "observer process died or hung (" + e.Error() + "): " + head(o, 400)
 					return
 				}
 				if b, rerr := os.ReadFile(op); rerr == nil {
@@ -389,9 +390,18 @@ func main() {
 	gosum := flag.String("gosum", "", "go.sum for the farm module")
 	defsPath := flag.String("defs", "", "JSON file with a list of definition files to run before the corpus / random ones")
 	corpus := flag.Bool("corpus", false, "prepend the fixed corpus")
+	wide := flag.Bool("wide", false, "widened search: sizes, shapes and names beyond the ordinary generator's caps")
+	steerArg := flag.String("steer", "", "comma-separated integer literals of the source under test (sizes and values to aim at)")
 	flag.Parse()
 	if *repo == "" || *work == "" || *gosum == "" {
 		must(fmt.Errorf("-repo, -work and -gosum are required"))
+	}
+	wideMode = *wide
+	for _, x := range strings.Split(*steerArg, ",") {
+		var v int64
+		if _, err := fmt.Sscan(strings.TrimSpace(x), &v); err == nil {
+			steer = append(steer, v)
+		}
 	}
 	r := gal.NewRand(*seed)
 	var files []FileDef
